@@ -964,7 +964,10 @@ def expand(case: dict) -> dict:
                 'layout': rng.randrange(4), 'nest_types': rng.random() < 0.5,
                 'name_len': case['depth'], 'scope_depth': case['depth']}
     if part == 'lookup-beyond':
-        decls = random_set(rng, BEYOND_ALPHABET, 5, 3, 12)
+        # every fourth set reaches far deeper: declarations 17-40 namespaces down
+        deep = (case.get('stream') or 0) % 4 == 3
+        decls = random_set(rng, BEYOND_ALPHABET, [20, 40][(case.get('stream') or 0) // 4 % 2], 3, 8) \
+            if deep else random_set(rng, BEYOND_ALPHABET, 5, 3, 12)
         queries, suffixes = [], []
         for _ in range(300):
             fqn = rng.choice(decls)[1]
@@ -1080,7 +1083,7 @@ def plan(tier: str, seed: int):
         f'scope of depth 0..{depth} and None, x every suffix of 1..{depth} ids': True,
         'lookup-random: declaration sets of size 3..8 are sampled; their queries (39 names x '
         '41 scopes, 39 suffixes) are enumerated': False,
-        'lookup-beyond: 5-identifier alphabet to depth 5, sets and queries sampled': False,
+        'lookup-beyond: 5-identifier alphabet to depth 5 (every fourth set to depth 20 or 40), sets and queries sampled': False,
         'order-all: every name of 1..3 ids x every scope of depth 0..3 and None': True,
         'order-beyond: sampled': False,
         f'ident-all: every string of length <={maxlen} over the 12-character hostile '
